@@ -1,6 +1,7 @@
 package rules
 
 import (
+	"ibcverif/interp"
 	"fmt"
 	"go/ast"
 	"go/token"
@@ -82,6 +83,26 @@ func runC15(c *Ctx) {
 		{Family: "nextConnectionSequence", Ops: "delete", Min: 0},
 		{Family: "nextChannelSequence", Ops: "delete", Min: 0},
 	})
+	// ---- an imported genesis must leave the counter strictly above every identifier in use
+	for _, g := range []struct{ fn, field string }{
+		{"core/02-client/types.GenesisState.Validate", "NextClientSequence"},
+		{"core/03-connection/types.GenesisState.Validate", "NextConnectionSequence"},
+		{"core/04-channel/types.GenesisState.Validate", "NextChannelSequence"},
+	} {
+		if rr := c.Run(which, g.fn); rr != nil {
+			// a rejecting branch guarded by  max != 0 && next <= max  must exist
+			var rejects []*interp.Event
+			for _, k := range []string{"errorsmod.Wrapf", "fmt.Errorf", "errorsmod.Wrap"} {
+				for _, ev := range c.Calls(rr, k) {
+					if ev.Fn == rr.Fn {
+						rejects = append(rejects, ev)
+					}
+				}
+			}
+			c.Exists(which, "C15/genesis-counter", g.fn, rejects, nil,
+				Req{Name: g.field + "-must-exceed-max-used", Any: all("le(field:"+g.field+"(param#0), ~or(phi#*, top#*))")})
+		}
+	}
 	// ---- parsing: 64-bit base 10, error propagated, value returned
 	for _, p := range []struct {
 		fn  string
